@@ -1,5 +1,6 @@
 PROP = {
-    "groups": ["proc", "errtell", "e2e-hang"],
+    "shared_groups": "also runs the neighbouring groups whose code can break this property: e2e-pause (described under C18); e2e-stop (described under C10)",
+    "groups": ["proc", "errtell", "e2e-hang", "e2e-pause", "e2e-stop"],
     "rule": "proc: for each of the three generated nets (send, recv, hash) the numbers of goroutines, channels, "
             "defer-closed channels, range loops and the sorted channel capacities counted by an independent name-based "
             "go/ast walk vs the numbers the extracted model computes from the generated skeleton; proc_faults: 'every return "
